@@ -1,7 +1,7 @@
 (* C07 - Names in generated code denote the declaration Dezyne's scoping rules select. *)
 From Coq Require Import List NArith Bool Arith String.
 From Dznpy Require Import Base.PyStr Base.Result Model.TextGen Model.Scoping Model.PortSelection Model.CppGen Model.Ast
-  Model.SupportFiles Model.Builder Spec.DznFile Proofs.BuilderFacts Proofs.C07Facts.
+  Model.SupportFiles Sem.ShellSem Model.Builder Spec.DznFile Proofs.BuilderFacts Proofs.C07Facts.
 Import ListNotations.
 Open Scope nat_scope.
 
@@ -25,10 +25,10 @@ Proof. exact port_itf_resolution. Qed.
 Print Assumptions C07_port_interface_unique.
 
 (* the C++ type of every event parameter is the data value of THE unique extern on the chain of the interface's own scope *)
-Theorem C07_parameter_type_unique : forall fc itf by_ref e args, formal_args fc itf by_ref e = Ok args ->
-  Forall2 (fun f arg => exists ext, lookup_fqn fc (f_type f) (it_fqn itf) = [FExtern ext] /\
-                        exists r, arg = (ex_value ext ++ r ++ L " " ++ f_name f)%list) (e_formals e) args.
-Proof. exact formal_args_resolution. Qed.
+Theorem C07_parameter_type_unique : forall fc itf by_ref e ps, formal_params fc itf by_ref e = Ok ps ->
+  Forall2 (fun f p => exists ext, lookup_fqn fc (f_type f) (it_fqn itf) = [FExtern ext] /\
+                      cp_type p = ex_value ext /\ cp_pname p = f_name f) (e_formals e) ps.
+Proof. exact formal_params_resolution. Qed.
 Print Assumptions C07_parameter_type_unique.
 
 Theorem C07_claim_enum_unique : forall m n itf fc fx, check_multiclient m n itf fc = Ok (Some fx) ->
